@@ -3,7 +3,9 @@
 package gcc
 
 import (
+	"github.com/pion/interceptor"
 	"github.com/pion/rtcp"
+	"github.com/pion/rtp"
 
 	vr "github.com/pion/interceptor/internal/verifrt"
 )
@@ -47,4 +49,46 @@ func HC16Lifecycle() {
 	werr := e.WriteRTCP([]rtcp.Packet{&rtcp.CCFeedbackReport{SenderSSRC: 1}}, nil)
 	vr.Assert(vr.ErrorsIs(werr, ErrSendSideBWEClosed), "feedback after Close fails with the documented closed error")
 	vr.Cover("closed")
+}
+
+// HC16Feedback: the real estimator end to end with a NoOp pacer: packets carrying the
+// transport-wide-CC extension are written through AddStream, then a TWCC feedback acknowledging
+// them (arrival spacing chosen from a table: equal to the send spacing, bunched, or spread out) is
+// fed through WriteRTCP. The call returns, the whole goroutine pipeline settles, the target stays a
+// positive number within the configured bounds and the callback value equals the getter.
+func HC16Feedback() {
+	minB, maxB, initial := 50_000, 2_000_000, 300_000
+	e, err := NewSendSideBWE(SendSideBWEInitialBitrate(initial), SendSideBWEMinBitrate(minB), SendSideBWEMaxBitrate(maxB), SendSideBWEPacer(NewNoOpPacer()))
+	vr.Assert(err == nil && e != nil, "estimator constructed")
+	cbVal, cbCalls := 0, 0
+	e.OnTargetBitrateChange(func(b int) { cbVal = b; cbCalls++ })
+	info := &interceptor.StreamInfo{SSRC: 7, RTPHeaderExtensions: []interceptor.RTPHeaderExtension{{URI: transportCCURI, ID: 3}}}
+	w := e.AddStream(info, interceptor.RTPWriterFunc(func(h *rtp.Header, p []byte, _ interceptor.Attributes) (int, error) { return len(p), nil }))
+	vr.Yield()
+	n := vr.Param("packets", 3)
+	for i := 0; i < n; i++ {
+		h := &rtp.Header{Version: 2, SSRC: 7, SequenceNumber: uint16(i), Extension: true, ExtensionProfile: 0xBEDE}
+		ext, _ := (&rtp.TransportCCExtension{TransportSequence: uint16(100 + i)}).Marshal()
+		_ = h.SetExtension(3, ext)
+		_, werr := w.Write(h, make([]byte, 1000), nil)
+		vr.Assert(werr == nil, "write accepted")
+	}
+	deltas := [3]int64{250, 5000, 60000} // microseconds between arrivals
+	d := deltas[vr.Concretize(vr.NondetInt(0, 2))]
+	fb := &rtcp.TransportLayerCC{SenderSSRC: 1, MediaSSRC: 7, BaseSequenceNumber: 100, PacketStatusCount: uint16(n), ReferenceTime: 1000,
+		PacketChunks: []rtcp.PacketStatusChunk{&rtcp.RunLengthChunk{Type: rtcp.TypeTCCRunLengthChunk, PacketStatusSymbol: rtcp.TypeTCCPacketReceivedLargeDelta, RunLength: uint16(n)}}}
+	for i := 0; i < n; i++ {
+		fb.RecvDeltas = append(fb.RecvDeltas, &rtcp.RecvDelta{Type: rtcp.TypeTCCPacketReceivedLargeDelta, Delta: d})
+	}
+	werr := e.WriteRTCP([]rtcp.Packet{fb}, nil)
+	vr.Assert(werr == nil, "well-formed feedback about sent packets is accepted")
+	vr.Yield()
+	vr.Cover("feedback processed")
+	got := e.GetTargetBitrate()
+	vr.Assert(got > 0 && got >= minB && got <= maxB, "target bitrate positive and within the configured bounds")
+	if cbCalls > 0 {
+		vr.Cover("callback fired")
+		vr.Assert(cbVal == got, "the last callback value is the value the getter returns")
+	}
+	vr.Assert(e.Close() == nil, "close")
 }
